@@ -336,4 +336,26 @@ theorem end_to_end_arff_dense (q : Nat) (hq : q = C12.SQ ∨ q = C12.DQ) (also :
       ∃ exs, DenseSplit ind table exs ∧ MeetsStatement given exs ints :=
   end_to_end_arff_dense' q hq also attrs hattr hnd rows hrows ind given ints h
 
+/-! ### contexts addressed by header name (`DropOne.headers`, `DropOne.__getitem__(name)`) -/
+
+/-- the label's header name is not among the context's headers … -/
+theorem label_header_absent {η : Type} (i : Nat) (hdr : List η) (l : η) (hn : hdr.Nodup) (hl : hdr[i]? = some l) :
+    l ∉ featureHeaders i hdr :=
+  label_header_absent' i hdr l hn hl
+
+/-- … so the true label cannot be read out of the context by the label column's name (`KeyError`) -/
+theorem label_lookup_fails {η γ : Type} [DecidableEq η] (i : Nat) (hdr : List η) (feats : List γ) (l : η)
+    (hn : hdr.Nodup) (hl : hdr[i]? = some l) : featureByName i hdr feats l = .error .keyError :=
+  label_lookup_fails' i hdr feats l hn hl
+
+/-- every other column is found in the context under its own name, with the row's value -/
+theorem feature_lookup {η γ : Type} [DecidableEq η] (i : Nat) (hdr : List η) (row feats : List γ) (lab : γ)
+    (hn : hdr.Nodup) (hlen : hdr.length = row.length) (hs : splitDense i row = .ok (feats, lab))
+    (k : Nat) (name : η) (v : γ) (hk : k ≠ i) (hname : hdr[k]? = some name) (hv : row[k]? = some v) :
+    featureByName i hdr feats name = .ok v :=
+  feature_lookup' i hdr row feats lab hn hlen hs k name v hk hname hv
+
+example : featureByName 1 ["a", "y", "b"] [10, 30] "b" = .ok 30 ∧
+    featureByName 1 ["a", "y", "b"] [10, 30] "y" = (.error .keyError : Except Err Nat) := by decide
+
 end Coba.C14
